@@ -126,6 +126,8 @@ def run_job(job, workdir, gen_dir):
         cmd3 += ["--cvc5"]
     elif job.backend == "z3":
         cmd3 += ["--z3"]
+    elif job.backend == "kissat":
+        cmd3 += ["--external-sat-solver", "kissat"]
     res["cmds"].append(" ".join(cmd3))
     groups = [None]
     if job.shards > 1:
@@ -266,6 +268,8 @@ def trace_inputs(trace):
             vals[lhs] = val
         elif re.match(r"^in_\w+(\.|\[)", lhs):
             vals[lhs] = val
+        elif lhs.startswith("dynamic_object") and "." in lhs and "$pad" not in lhs:
+            vals[lhs] = val  # fields of objects created by __CPROVER_is_fresh in the contract's requires
         elif fn.startswith("mk_") and "." in lhs and not lhs.startswith("__"):
             vals[lhs] = val
         elif fn.startswith("h_") and not lhs.startswith("__") and "$" not in lhs and "tmp" not in lhs:
